@@ -1403,7 +1403,8 @@ func (c *control) dirT(colon, at bool, params []any) {
 			start++
 			from = len(c.out) - start
 		}
-		if from == from/colinc*colinc {
+		if colinc == 0 || from == from/colinc*colinc {
+			// A colinc of zero means no spaces other than colrel.
 			target = from
 		} else {
 			target = from/colinc*colinc + colinc
@@ -1418,8 +1419,12 @@ func (c *control) dirT(colon, at bool, params []any) {
 		}
 		target = colnum * colinc
 		if target <= from {
-			// Already at or beyond the column, move on to the next stop.
-			target = from/colinc*colinc + colinc
+			// Already at or beyond the column, move on to the next stop
+			// unless colinc is zero.
+			target = from
+			if colinc != 0 {
+				target = from/colinc*colinc + colinc
+			}
 		}
 	}
 	target -= from
